@@ -453,12 +453,16 @@ type faultReader struct {
 	off  int
 	err  error
 	ctxc context.CancelFunc
+	gone string // host path removed just before the failure is reported
 }
 
 func (f *faultReader) Read(p []byte) (int, error) {
 	if f.off >= f.k {
 		if f.ctxc != nil {
 			f.ctxc()
+		}
+		if f.gone != "" {
+			os.Remove(f.gone)
 		}
 		return 0, f.err
 	}
@@ -663,6 +667,10 @@ func (sb *Sandbox) Build(r *Req, variant int, tags func(class string) string) (*
 			body = bytes.NewReader(data)
 		} else if r.Fault {
 			fr = &faultReader{data: data, k: r.Fk, err: io.ErrUnexpectedEOF}
+			if r.Fmode == "errgone" {
+				// by the time the body fails, another request has removed the target (and a collection has taken its name)
+				fr.gone = sb.hostPath(r.P)
+			}
 			if r.Fmode == "cancel" {
 				ctx, cancel = context.WithCancel(ctx)
 				fr.err = context.Canceled
